@@ -101,9 +101,44 @@ pub fn inputs(tier: Tier) -> Vec<PCase> {
     v
 }
 
+
+/// a consumer of the code transform: its payload is the transform itself (code section start, every
+/// function range, every (input location, output offset) pair), so the emitted bytes depend on it
+#[derive(Debug, Default)]
+pub struct CtDump(pub Vec<u8>);
+impl walrus::CustomSection for CtDump {
+    fn name(&self) -> &str {
+        "ct-dump"
+    }
+    fn data(&self, _: &walrus::IdsToIndices) -> std::borrow::Cow<'_, [u8]> {
+        std::borrow::Cow::Borrowed(&self.0)
+    }
+    fn apply_code_transform(&mut self, t: &walrus::CodeTransform) {
+        let mut v = vec![];
+        v.extend_from_slice(&(t.code_section_start as u32).to_le_bytes());
+        for (id, r) in &t.function_ranges {
+            v.extend_from_slice(&(id.index() as u32).to_le_bytes());
+            v.extend_from_slice(&(r.start as u32).to_le_bytes());
+            v.extend_from_slice(&(r.end as u32).to_le_bytes());
+        }
+        for (loc, off) in &t.instruction_map {
+            v.extend_from_slice(&loc.data().to_le_bytes());
+            v.extend_from_slice(&(*off as u32).to_le_bytes());
+        }
+        self.0 = v;
+    }
+}
+
 fn serial(c: &PCase) -> Result<Vec<u8>, ()> {
     let cfg = Cfg { preserve_ct: c.preserve_ct, ..Cfg::default() };
-    roundtrip(&c.wasm, &cfg, c.gc).map_err(|_| ())
+    let mut m = parse(&c.wasm, &cfg).map_err(|_| ())?;
+    if c.preserve_ct {
+        m.customs.add(CtDump::default());
+    }
+    if c.gc {
+        gc(&mut m).map_err(|_| ())?;
+    }
+    emit(&mut m).map_err(|_| ())
 }
 
 pub fn wpar_path(args: &Args) -> std::path::PathBuf {
